@@ -85,9 +85,15 @@ add("C04",
     "C04_args_positional, C04_instance_binding); the exception shape (exponentialrate label before invariant) has a proved witness. The reader and "
     "builder tables the model relies on are regenerated from xmlreader.cpp / DocumentBuilder.cpp / document.cpp and checked by decide "
     "(C04_tables_*); the correspondence runs generated XML models through the real parse_XML_buffer and compares the callback trace and the "
-    "document dump with the model's.",
-    T + "translate/xml_tables.py, checks/c04_model.py (generator/renderer), harness/c04.cpp. Not modelled: LSC templates, queries, the text layer "
-    "(libxml2 itself), global last-wins lookup among equally named objects. 1 known finding (label order), 1 defect repaired (comment before closing tag).",
+    "document dump with the model's. The invariant the type checker stores for a location (RateDecomposer, Model/RateDecomp.lean, its open points "
+    "read from typechecker.cpp by translate/ratedecomp.py): C04_invariant_conjuncts -- for every invariant (any nesting of conjunctions, rates, "
+    "quantifiers) the stored invariant is 1 followed by exactly the conjuncts of the source that are not cost rates, each once, in source order, a "
+    "quantified conjunct whole -- with C04_invariant_count, C04_cost_rate, C04_rate_flags; compared with the real library on generated invariants "
+    "(harness op ratedec) together with an oracle of the statement itself.",
+    T + "translate/xml_tables.py, translate/ratedecomp.py, checks/c04_model.py (generator/renderer), checks/c04_rate.py, harness/c04.cpp. Not modelled: "
+    "LSC templates, queries, the text layer (libxml2 itself), global last-wins lookup among equally named objects; cost variables cannot be declared in "
+    "this grammar, so the cost-rate branch of the decomposer is proved but not exercised. 1 known finding (label order), 2 defects repaired (comment "
+    "before closing tag; nested quantified invariant stored twice, found by the Lean model).",
     "Lean 4 round-trip theorem for models of the XML reader and document builder + table translation + trace/dump correspondence")
 
 add("C05",
